@@ -24,8 +24,7 @@ def handle (j : Json) : Except String Json := do
       | some l => pure (Json.mkObj [("ok", .arr (l.map Json.str).toArray)])
   | "collkey" =>
       let parts ← strList j "raw"
-      let n ← argNat j "pkAttrs"
-      pure (Json.mkObj [("ok", jKey (bagCollectionKey n parts))])
+      pure (Json.mkObj [("ok", jKey (bagCollectionKey parts))])
   | "dictkey" =>
       let parts ← strList j "raw"
       pure (Json.mkObj [("ok", jKey (bagDictKey parts))])
